@@ -189,10 +189,29 @@ def suite_defaults(ctx):
                 ({'request_timeout': 64.0, 'p2_timeout': 2.0}, "Client(conn, config={'request_timeout': 64, 'p2_timeout': 2})"),
                 ({'request_timeout': None, 'p2_star_timeout': 8.0}, "Client(conn, config={'request_timeout': None, 'p2_star_timeout': 8})"),
                 ({'p2_timeout': 1.5, 'p2_star_timeout': 2.0}, "Client(conn, config={'p2_timeout': 1.5, 'p2_star_timeout': 2})")]
-    for given, label in variants:
+    # every documented way of giving the keys: the configuration dictionary at construction, keyword arguments at construction, set_config / set_configs
+    # afterwards (one key at a time, all at once) - a key takes effect for the next request whichever way it came
+    hows = ('config=', 'kwargs', 'set_config', 'set_configs')
+    for given, label0, how in [(g_, l_, h_) for g_, l_ in variants for h_ in (hows if g_ else ('config=',))]:
+        label = label0 if how == 'config=' else '%s given by %s' % (label0, how)
         for kind in ('silence', 'pending-then-silence', 'pending-chain'):
             conn = cl.stub.StubConn(cl.CLOCK)
-            client = Client(conn, config=dict(given)) if given else Client(conn)
+            if not given:
+                client = Client(conn)
+            elif how == 'config=':
+                client = Client(conn, config=dict(given))
+            elif how == 'kwargs':
+                # the constructor takes request_timeout as a keyword of its own (when it is a number); everything else goes through config=
+                kw = {'request_timeout': given['request_timeout']} if given.get('request_timeout') is not None else {}
+                rest = {k_: v_ for k_, v_ in given.items() if k_ not in kw}
+                client = Client(conn, config=rest, **kw) if rest else Client(conn, **kw)
+            elif how == 'set_config':
+                client = Client(conn)
+                for k_, v_ in given.items():
+                    client.set_config(k_, v_)
+            else:
+                client = Client(conn)
+                client.set_configs(dict(given))
             conn.opened = True
             if kind == 'silence':
                 conn.script = []
@@ -216,7 +235,7 @@ def suite_defaults(ctx):
                         break
                     want.append((t, min(p2s, rtv - t)))
             s.evaluations += 1
-            s.distinct.add(label + kind)
+            s.distinct.add(label0 + '|' + how + '|' + kind)
             got = [(round(a, 6), round(b, 6)) for a, b in waits]
             wantr = [(round(a, 6), round(b, 6)) for a, b in want]
             if got != wantr:
